@@ -338,11 +338,12 @@ func (Spec) MakeData(name enc.Name, config *ndn.DataConfig, content enc.Wire, si
 		if len(sigVal) > estSigLen {
 			return nil, ndn.ErrNotSupported{Item: "Too long signature value is not supported"}
 		}
-		wire[encoder.Data_encoder.SignatureValue_wireIdx] = sigVal
 		// Fix SignatureValue length
-		buf := wire[encoder.Data_encoder.SignatureValue_wireIdx-1]
-		buf[len(buf)-1] = byte(len(sigVal))
-		// TODO: This needs to be fixed for estSigLen >= 253 (urgent)
+		err = fixSigValueLength(wire[encoder.Data_encoder.SignatureValue_wireIdx-1], estSigLen, len(sigVal))
+		if err != nil {
+			return nil, err
+		}
+		wire[encoder.Data_encoder.SignatureValue_wireIdx] = sigVal
 		// Fix packet length
 		shrink := estSigLen - len(sigVal)
 		wire[0] = enc.ShrinkLength(wire[0], shrink)
@@ -353,6 +354,21 @@ func (Spec) MakeData(name enc.Name, config *ndn.DataConfig, content enc.Wire, si
 		SigCovered: sigCovered,
 		Config:     config,
 	}, nil
+}
+
+// fixSigValueLength rewrites the length number of the SignatureValue element, which was
+// encoded for a value of estLen octets, for the sigLen (<= estLen) octets the signer gave.
+// buf ends with that length number. The number keeps its width, so that no octet moves:
+// a length is written in its shortest form, hence a signature whose length needs a
+// shorter number than the estimate (253 or more estimated, 252 or less given) cannot be
+// put in place and is refused.
+func fixSigValueLength(buf enc.Buffer, estLen int, sigLen int) error {
+	width := enc.TLNum(estLen).EncodingLength()
+	if enc.TLNum(sigLen).EncodingLength() != width || len(buf) < width {
+		return ndn.ErrNotSupported{Item: "Signature value much shorter than estimated is not supported"}
+	}
+	enc.TLNum(sigLen).EncodeInto(buf[len(buf)-width:])
+	return nil
 }
 
 func (Spec) ReadData(reader enc.ParseReader) (ndn.Data, enc.Wire, error) {
@@ -474,9 +490,6 @@ func (Spec) MakeInterest(name enc.Name, config *ndn.InterestConfig, appParam enc
 				interest.SignatureInfo.SignatureTime = &t
 			}
 			estSigLen = int(signer.EstimateSize())
-			if estSigLen >= 253 {
-				return nil, ndn.ErrNotSupported{Item: "Too long signature value is not supported"}
-			}
 		}
 	}
 
@@ -511,10 +524,12 @@ func (Spec) MakeInterest(name enc.Name, config *ndn.InterestConfig, appParam enc
 		if uint(len(sigVal)) > ecdr.SignatureValue_estLen {
 			return nil, ndn.ErrNotSupported{Item: "Too long signature value is not supported"}
 		}
-		wire[ecdr.SignatureValue_wireIdx] = sigVal
 		// Fix SignatureValue length
-		buf := wire[ecdr.SignatureValue_wireIdx-1]
-		buf[len(buf)-1] = byte(len(sigVal))
+		err = fixSigValueLength(wire[ecdr.SignatureValue_wireIdx-1], estSigLen, len(sigVal))
+		if err != nil {
+			return nil, err
+		}
+		wire[ecdr.SignatureValue_wireIdx] = sigVal
 
 		// Don't fix packet length for now, as it may cause trouble
 	}
